@@ -254,7 +254,7 @@ STORE_NOTE = ('Trusted: Lean kernel (axioms propext, Classical.choice, Quot.soun
 PROPS['C01'] = dict(lean=['Mkdb.Props.C01'], facts=STORE_FACTS, runs=[dict(cmd='db', proto='db', args=['c01'])],
     sig_filter=r'db:(contents-differ:live|schema-differs:live|row-ids-not-increasing:live|row-id:live|panic:live|hang:live|select-failed:live|valid-statement-refused:live)',
     
-    claim='Proof (partial): C01_step / C01_history - for every history of tree operations of any length (inserts with whatever leaf splits, internal splits at any depth and root growths they cause, value changes, deletions) what a scan of the tree sees is exactly the plain list the history implies: accepted inserts appended in order, changed values in place, tombstones set; C01_select_sees_live_rows; C01_ids_strictly_increasing - row ids strictly increasing hence unique; C01_no_resurrection - a deleted row stays deleted through every later operation. C01_forest_* - trees sharing one file never share a page and an operation on one leaves the others alone. These are about the levels model of storage/btree.go (Mkdb.Tree); C01_heap_history / C01_heap_history_scan carry them to the heap model that is compared with the code: for every store whose page heap holds a well-formed tree and every history of inserts, value changes and deletions, the heap model's own insertKeyHeap / findLeaf+updateCellAt / tombstone code ends holding exactly the levels tree and scanRight returns its live cells (proved refinement, about 3500 lines, any depth up to the 64-level fuel). Not covered by a theorem: that a statement is the sequence of tree operations assumed (shared row-id counter, catalog rows, root re-pointing), the row codec (C08) and the page codec (C12). Tie: random DDL/DML histories over up to 12 tables through RelationService on real files, with page flushes and reloads at random points and histories deep enough for internal-node splits; after every statement the outcome, at intervals SELECT * of every table, the catalog, and the complete page heap are compared with the heap model (page by page: cells, flags, sibling links, LSNs, dirty bits, header), and the judge compares every table with the in-memory spec of the statements (Spec/Tables.lean) and checks row ids.',
+    claim='Proof (partial): C01_step / C01_history - for every history of tree operations of any length (inserts with whatever leaf splits, internal splits at any depth and root growths they cause, value changes, deletions) what a scan of the tree sees is exactly the plain list the history implies: accepted inserts appended in order, changed values in place, tombstones set; C01_select_sees_live_rows; C01_ids_strictly_increasing - row ids strictly increasing hence unique; C01_no_resurrection - a deleted row stays deleted through every later operation. C01_forest_* - trees sharing one file never share a page and an operation on one leaves the others alone. These are about the levels model of storage/btree.go (Mkdb.Tree); C01_heap_history / C01_heap_history_scan carry them to the heap model that is compared with the code: for every store whose page heap holds a well-formed tree and every history of inserts, value changes and deletions, the insertKeyHeap / findLeaf+updateCellAt / tombstone code of the heap model itself ends holding exactly the levels tree and scanRight returns its live cells (proved refinement, about 3500 lines, any depth up to the 64-level fuel). Not covered by a theorem: that a statement is the sequence of tree operations assumed (shared row-id counter, catalog rows, root re-pointing), the row codec (C08) and the page codec (C12). Tie: random DDL/DML histories over up to 12 tables through RelationService on real files, with page flushes and reloads at random points and histories deep enough for internal-node splits; after every statement the outcome, at intervals SELECT * of every table, the catalog, and the complete page heap are compared with the heap model (page by page: cells, flags, sibling links, LSNs, dirty bits, header), and the judge compares every table with the in-memory spec of the statements (Spec/Tables.lean) and checks row ids.',
     note=STORE_NOTE,
     rule='1 deep history (1400 rows in one table, ~310 leaves, internal split; thorough also 2900 rows) + 12 (thorough 96) histories of 5-60 statements (thorough: every 8th has 260 statements over up to 12 tables of up to 11 columns), multi-row inserts of 1-12 rows, values up to the 400-byte row limit, 12% updates, 18% deletes, flush 10% / reload 5% per statement. Non-trivial: a history in which some table split a leaf; distinct by operation text.',
     assumptions=['row ids only ever arrive in ascending order (they come from the shared counter or from log replay)'],
@@ -269,7 +269,7 @@ PROPS['C02'] = dict(lean=['Mkdb.Props.C02'], facts=STORE_FACTS, runs=[dict(cmd='
     trusted_base=['models Mkdb/Model/Store.lean, Engine.lean (recover), Wal.lean, Redo.lean; hooks VerifFlush/VerifAbandon/VerifDump/VerifWal*'])
 PROPS['C11'] = dict(lean=['Mkdb.Props.C11'], facts=STORE_FACTS, runs=[dict(cmd='db', proto='db', args=['c01'], corpus='C11')],
     sig_filter=r'db:shape:.*', 
-    claim="Proof: C11_every_history - after any history, of any length, of insertions with ascending keys, value changes and deletions starting from a freshly created table, the tree satisfies the invariant Inv of Spec/TreeInv.lean, which is the C11 statement clause by clause: no node over capacity, keys strictly ascending within and across leaves, every separator the lowest key of the subtree to its right, every level's child pointers exactly the nodes of the level below in order (all leaves at one depth, one parent per node), no page twice and all below the allocation frontier, the doubly linked leaf chain equal to the leaves in tree order; C11_insert_preserves covers leaf split, separator propagation, internal splits at every depth and root growth by induction over the levels; C11_lookup_finds_every_key - in a well-formed tree every stored key is found by findCell's routing from the root. C11_heap_insert_is_levels_insert, C11_heap_insert_refusals, C11_heap_lookup_finds_every_key: the heap model's insertLeaf/insertInternal/findLeaf on pages addressed by offset are proved equal to the levels operations for every store, depth and key (refinement), so the invariant theorems hold of the heap model that is compared with the implementation page for page; C11_cross_check_never_fires. The tie to the code: every insert the heap model performs - and the heap model is compared page for page with the implementation - is re-done by insertAppend on the tree read out of the heap and every page, the root and the allocation frontier are compared (Store.ghostAgrees; a disagreement breaks the correspondence); independently the judge walks the implementation's own page graph from every table root with the executable shape checker Spec/Shape.lean (both chain directions, depth, bounds, reachability, lookup of every key).",
+    claim="Proof: C11_every_history - after any history, of any length, of insertions with ascending keys, value changes and deletions starting from a freshly created table, the tree satisfies the invariant Inv of Spec/TreeInv.lean, which is the C11 statement clause by clause: no node over capacity, keys strictly ascending within and across leaves, every separator the lowest key of the subtree to its right, every level's child pointers exactly the nodes of the level below in order (all leaves at one depth, one parent per node), no page twice and all below the allocation frontier, the doubly linked leaf chain equal to the leaves in tree order; C11_insert_preserves covers leaf split, separator propagation, internal splits at every depth and root growth by induction over the levels; C11_lookup_finds_every_key - in a well-formed tree every stored key is found by findCell's routing from the root. C11_heap_insert_is_levels_insert, C11_heap_insert_refusals, C11_heap_lookup_finds_every_key: insertLeaf/insertInternal/findLeaf of the heap model, on pages addressed by offset, are proved equal to the levels operations for every store, depth and key (refinement), so the invariant theorems hold of the heap model that is compared with the implementation page for page; C11_cross_check_never_fires. The tie to the code: every insert the heap model performs - and the heap model is compared page for page with the implementation - is re-done by insertAppend on the tree read out of the heap and every page, the root and the allocation frontier are compared (Store.ghostAgrees; a disagreement breaks the correspondence); independently the judge walks the implementation's own page graph from every table root with the executable shape checker Spec/Shape.lean (both chain directions, depth, bounds, reachability, lookup of every key).",
     note=STORE_NOTE,
     rule='as C01 (same histories): every insert in them is cross-checked against the levels model (about 1500-9000 inserts per quick run, including the first internal-node split in the deep history), the shape checker runs on every heap dump (every 7 statements and at the end). Non-trivial: a history with a leaf split; distinct by operation text. Internal splits at depth >= 2 need more than 190000 rows and are covered by the theorem only.',
     assumptions=['keys arrive in ascending order per tree (engine: shared counter; replay: logged ids)'],
